@@ -1,5 +1,5 @@
 """C02 — CIDR bit identities, setters, mask predicates.
-Ops: net_attrs ver v p ; net_sets ver v p [setter ops] ; mask_pred ver v"""
+Ops: net_attrs ver v p ; net_sets ver v p [setter ops] ; net_sets_trace ver v p [setter ops] ; mask_pred ver v"""
 from common import Case, W, value_classes, rand_value, errname, plist, tf, optint
 import common
 import netaddr
@@ -7,7 +7,8 @@ from netaddr import IPNetwork, IPAddress
 
 ID = 'C02'
 RULE = ('net_attrs: every prefix 0..width x structured value classes x both families; net_sets: random setter '
-        'sequences (value/prefixlen/netmask with in-range, boundary, out-of-range and non-int arguments); mask_pred: '
+        'sequences (value/prefixlen/netmask with in-range, boundary, out-of-range and non-int arguments), every history '
+        'also run on an instrumented subclass that counts slot stores per assignment (net_sets_trace); mask_pred: '
         'all contiguous masks, their +-1 neighbours, single-bit-hole masks, random. non-trivial = distinct case whose '
         'implementation output is not an error')
 ALLOWED = ('addrFormat', 'value', 'type')
@@ -97,11 +98,36 @@ def generate(rng, tier):
             ops = tuple(_setop(rng, ver) for _ in range(rng.randrange(1, 9)))
             cases.append(Case('net_sets %d %d %d %s' % (ver, v, p, plist(_tok(o) for o in ops)),
                               'sets/v%d' % ver, ('sets', ver, v, p, ops)))
+            cases.append(Case('net_sets_trace %d %d %d %s' % (ver, v, p, plist(_tok(o) for o in ops)),
+                              'setsT/v%d' % ver, ('setsT', ver, v, p, ops)))
     return cases
 
 
 def _net(ver, v, p):
     return common.make_net(ver, v, p)
+
+
+_SPY = {}
+
+
+def _spy_net(ver, v, p):
+    """an IPNetwork of an instrumented subclass: every store into a slot (`self._value = …`,
+    `self._prefixlen = …`, `self._module = …`) is logged, so that a setter which stored before a
+    failing check is seen even if it stored the old value back"""
+    if 'cls' not in _SPY:
+        log = []
+
+        class SpyNet(IPNetwork):
+            __slots__ = ()
+
+            def __setattr__(self, k, val):
+                if k.startswith('_'):
+                    log.append(k)
+                IPNetwork.__setattr__(self, k, val)
+        _SPY['cls'], _SPY['log'] = SpyNet, log
+    n = _SPY['cls']((v, p), version=ver)
+    del _SPY['log'][:]
+    return n, _SPY['log']
 
 
 def _show(n):
@@ -130,9 +156,13 @@ def impl(c):
         except Exception as e:
             nb = '!' + errname(e)
         return ' '.join([tf(ip.is_netmask()), tf(ip.is_hostmask()), nb])
-    if a[0] == 'sets':
+    if a[0] in ('sets', 'setsT'):
         _, ver, v, p, ops = a
-        n = _net(ver, v, p)
+        traced = a[0] == 'setsT'
+        if traced:
+            n, log = _spy_net(ver, v, p)
+        else:
+            n, log = _net(ver, v, p), None
         out = []
         for op in ops:
             kind, x = op[0], op[1:]
@@ -144,6 +174,8 @@ def impl(c):
                 arg = [1, 2]
             else:
                 arg = _junk(x[1] if len(x) > 1 else 'none', min(n.prefixlen, 20) if kind == 'p' else min(n.value, 1 << 20))
+            if traced:
+                del log[:]
             try:
                 if kind == 'v':
                     n.value = arg
@@ -156,6 +188,8 @@ def impl(c):
             except Exception as e:
                 en = errname(e)
                 out.append(('!E' if en in ALLOWED else '!other:' + en) + '~' + _show(n))
+            if traced:
+                out[-1] += '#%d' % len(log)
         return ';'.join(out)
     raise ValueError(a)
 
@@ -181,8 +215,9 @@ def oracle(c, got):
         hm = [p for p in range(w + 1) if v == (1 << (w - p)) - 1]
         exp = '%s %s %d' % (tf(bool(nm)), tf(bool(hm)), nm[0] if nm else w)
         return None if got == exp else 'mask predicates %s, expected %s' % (got, exp)
-    if a[0] == 'sets':
+    if a[0] in ('sets', 'setsT'):
         _, ver, v, p, ops = a
+        traced = a[0] == 'setsT'
         w = W[ver]
         m = (1 << w) - 1
         steps = got.split(';')
@@ -210,6 +245,8 @@ def oracle(c, got):
             else:
                 v, p = ok
                 exp = '%d:%d/%d' % (ver, v, p)
+            if traced:      # an accepted assignment stores once, a rejected one not at all
+                exp += '#1' if ok is not None else '#0'
             if s != exp:
                 return 'setter %s gave %s, expected %s' % (_tok(op), s, exp)
         return None
